@@ -292,7 +292,7 @@ pub fn run(ctx: &Ctx) -> i32 {
         let per = ctx.tier.pick(1500, 6000);
         let results: Vec<Vec<(Kv, Result<Vec<u8>, String>)>> = std::thread::scope(|sc| {
             // ... one of them with more than 2^16 builds (counters of "builders seen by this thread" may be 16 bits wide)
-            let hs: Vec<_> = (0..nser).map(|i| sc.spawn(move || build::series_on_one_thread(ctx.seed * 1000 + i as u64, if i == 0 { 80_000 } else { per }))).collect();
+            let hs: Vec<_> = (0..nser).map(|i| sc.spawn(move || build::series_on_one_thread(ctx.seed * 1000 + i as u64, if i == 0 { 140_000 } else { per }))).collect();
             hs.into_iter().map(|h| h.join().unwrap_or_default()).collect()
         });
         let mut bad = 0;
@@ -339,14 +339,14 @@ pub fn run(ctx: &Ctx) -> i32 {
     }
     ev.note("geometries", J::A(GEOMS.iter().map(|g| J::s(format!("{}x{}", g.0, g.1))).collect()));
     let mut floors = build::structural_floors(ctx.tier == crate::ctx::Tier::Thorough);
-    floors.push(("history:builds-in-long-series-on-one-thread", 70_000));
+    floors.push(("history:builds-in-long-series-on-one-thread", 140_000));
     floors.push(("history:builds-around-a-builder-migrating-between-threads", 2000));
     finish(
         ctx,
         ev,
         Spec {
             level: "exploration",
-            rule: "(history scenarios: series of 1500 small builds (one of them: 80000) on one fresh thread with every 7th builder abandoned half-way, and builders that migrate half-filled from a thread with p finished builds to a fresh thread which then runs q builds of its own - every build of a scenario is judged) one evaluation = one (key/value sequence, builder front end / cache geometry) build whose bytes are reopened and streamed through the enumeration APIs and compared element-wise with the inserted ordered map; cases: ALL subsets of {a,b}^<=3 x 3 value styles x 6 cache geometries, fan-out palette {0,1,2,31,32,33,63,64,65,255,256} x depth x finality x output shapes, all 256 byte values, keys up to 70000 bytes, corpora, random maps, bulk maps sized for 1..3 (quick) / 1..4 (thorough) byte address deltas, a two-key FST whose root needs 4-byte deltas, a fan-out x output-width grid, dense product sets, (thorough) one FST larger than 4 GiB with a suffix re-used beyond the 4 GiB mark; non-trivial = at least one key; distinct = distinct (content, front end) fingerprints",
+            rule: "(history scenarios: series of 1500 small builds (one of them a sparse series of 140000 builds in which three marker maps sharing a node shape recur every 256 builds) on one fresh thread with every 7th builder abandoned half-way, and builders that migrate half-filled from a thread with p finished builds to a fresh thread which then runs q builds of its own - every build of a scenario is judged) one evaluation = one (key/value sequence, builder front end / cache geometry) build whose bytes are reopened and streamed through the enumeration APIs and compared element-wise with the inserted ordered map; cases: ALL subsets of {a,b}^<=3 x 3 value styles x 6 cache geometries, fan-out palette {0,1,2,31,32,33,63,64,65,255,256} x depth x finality x output shapes, all 256 byte values, keys up to 70000 bytes, corpora, random maps, bulk maps sized for 1..3 (quick) / 1..4 (thorough) byte address deltas, a two-key FST whose root needs 4-byte deltas, a fan-out x output-width grid, dense product sets, (thorough) one FST larger than 4 GiB with a suffix re-used beyond the 4 GiB mark; non-trivial = at least one key; distinct = distinct (content, front end) fingerprints",
             assumptions: vec![
                 "oracle = BTreeMap-ordered input sequence; comparison is on keys, values, order and multiplicity".into(),
                 "structural coverage classes (cov:*) are computed by the harness' independent decoder, not by the reader under test".into(),
